@@ -144,6 +144,12 @@ structure Spec (κ ν : Type) where
   startAbort : Bool
   /-- `output_column_map()`, total on the body outputs -/
   colmap : κ → κ
+  /-- the keys of the `output_column_map` argument (only read by the class-creation checks `mk`) -/
+  mapKeys : List κ
+  /-- class creation refuses a layout whose column names (looped inputs + mapped outputs) are not
+  pairwise distinct: `false` = as pinned (only *unmapped* clashes are refused; a map ONTO a looped
+  label or onto another column is accepted), `true` = repaired (fixes/C16-unique-columns.patch) -/
+  checkCols : Bool
   /-- the body function, one uninterpreted symbol per output: arguments in `bodyInputs` order -/
   bodyFn : κ → List ν → ν
   /-- a whole list used as one (broadcast) value -/
@@ -169,13 +175,21 @@ abbrev Table (κ ν : Type) := List (List (κ × ν))
 inductive Outs (κ ν : Type)
   | df (t : Option (Table κ ν))
   | lists (cols : List (κ × Option (List ν)))
-  deriving Repr
+  deriving Repr, DecidableEq
 
 inductive Res
   | ok            -- run returned its outputs
   | readiness     -- ReadinessError of the for-node itself
   | failedChild   -- FailedChildError
   | raised (e : Err)  -- exception of `dictionary_to_index_maps` out of `_on_cache_miss`
+  | labelClash        -- AttributeError out of `_collect_output_as_lists`: two column collectors with one label
+  deriving DecidableEq, Repr
+
+/-- refusals at class creation (`For.__init_subclass__`) -/
+inductive MkErr
+  | unmapped      -- UnmappedConflictError: a looped input label is also an output label and has no map entry
+  | nonexistent   -- MapsToNonexistentOutputError: a map key is not an output label
+  | columns       -- (repaired only) the column names are not pairwise distinct
   deriving DecidableEq, Repr
 
 section
@@ -262,6 +276,36 @@ def bodyOutAt (s : Spec κ ν) (cur : Cur κ ν) (order : List Nat) (n : Nat) (w
     (o : κ) : Option ν :=
   if n ∈ order then bodyOut s cur w o else none
 
+/-- `d[k] = v` on a python dict of values: update in place, else append -/
+def rset : List (κ × ν) → κ → ν → List (κ × ν)
+  | [], k, v => [(k, v)]
+  | (k', v') :: r, k, v => if k' = k then (k', v) :: r else (k', v') :: rset r k v
+
+/-- the channels of a row collector and what they deliver, given the connections in the order they
+are made: `row_specification` is a python dict (a repeated column name keeps its first position)
+and a later connection to the same channel takes precedence when the value is fetched -/
+def rupdate (l : List (κ × ν)) : List (κ × ν) := l.foldl (fun d kv => rset d kv.1 kv.2) []
+
+/-- the column names of the table: looped inputs, then mapped outputs -/
+def columns (s : Spec κ ν) : List κ := s.iterOn ++ s.zipOn ++ s.outputs.map s.colmap
+
+/-- the labels `column_collector_<c>` in the order `_collect_output_as_lists` creates them -/
+def collectorLabels (s : Spec κ ν) : List κ := s.outputs.map s.colmap ++ (s.zipOn ++ s.iterOn)
+
+/-- the longest prefix in which nothing is repeated (`seen` = what came before) -/
+def freshPrefix : List κ → List κ → List κ
+  | _, [] => []
+  | seen, a :: r => if a ∈ seen then [] else a :: freshPrefix (a :: seen) r
+
+/-- lists form: creating the column collectors stops with an `AttributeError` at the first label
+that is already taken by an earlier collector -/
+def listsClash (s : Spec κ ν) : Bool := !s.asDf && !decide (collectorLabels s).Nodup
+
+/-- `_build_body` when `_collect_output_as_lists` dies on a label clash: the old sub-graph is
+gone, the bodies and the collectors created so far stay -/
+def buildClash (s : Spec κ ν) (maps : List (Dict κ)) (cs : List (Child κ)) : List (Child κ) :=
+  addBodies (cs.filter Child.isInput) 0 maps ++ (freshPrefix [] (collectorLabels s)).map .colc
+
 /-- row collector `n` (an `InputsToDict`): looped inputs, then mapped outputs -/
 def rowAt (s : Spec κ ν) (cur : Cur κ ν) (order : List Nat) (n : Nat) (w : List (κ × Option ν)) :
     Option (List (κ × ν)) :=
@@ -270,7 +314,7 @@ def rowAt (s : Spec κ ν) (cur : Cur κ ν) (order : List Nat) (n : Nat) (w : L
   | some l =>
     match optAll (s.outputs.map fun o => (bodyOutAt s cur order n w o).map (s.colmap o, ·)) with
     | none => none
-    | some o => some (l ++ o)
+    | some o => some (rupdate (l ++ o))
 
 def enum {α : Type} : Nat → List α → List (Nat × α)
   | _, [] => []
@@ -298,7 +342,7 @@ def Outs.complete : Outs κ ν → Bool
 /-- every output `NOT_DATA` (value links are (re)formed at build time from fresh collectors) -/
 def ndOuts (s : Spec κ ν) : Outs κ ν :=
   if s.asDf then .df none
-  else .lists ((loopedInputs s).map (·, none) ++ s.outputs.map (fun o => (s.colmap o, none)))
+  else .lists ((loopedInputs s ++ s.outputs.map s.colmap).eraseDups.map (·, none))
 
 /-- lists form only: the column collector of a looped key that no index map mentions has no
 connection at all, so the DAG wiring makes it a *starting node*, which fails its readiness check -/
@@ -312,6 +356,14 @@ structure St (κ ν : Type) where
 
 def init (s : Spec κ ν) : St κ ν :=
   { children := s.bodyInputs.map .input, outs := ndOuts s, cached := none }
+
+/-- `for_node_factory` / `For.__init_subclass__`: the checks made when the class is created -/
+def mk (s : Spec κ ν) : Except MkErr (St κ ν) :=
+  if s.bodyInputs.any (fun k => k ∈ s.iterOn ++ s.zipOn && k ∈ s.outputs && !(k ∈ s.mapKeys)) then
+    .error .unmapped
+  else if s.mapKeys.any (fun k => !(k ∈ s.outputs)) then .error .nonexistent
+  else if s.checkCols && !decide (columns s).Nodup then .error .columns
+  else .ok (init s)
 
 def ready (cur : Cur κ ν) : Bool := cur.all fun kv => match kv.2 with | .nd => false | _ => true
 
@@ -329,6 +381,10 @@ def run (s : Spec κ ν) (st : St κ ν) (cur : Cur κ ν) (order : List Nat) : 
     match indexMapsOf (dataOf cur) (some s.iterOn) (some s.zipOn) with
     | .error e => (st, .raised e)                                -- raised before anything is touched
     | .ok maps =>
+      if listsClash s then
+        -- raised out of `_on_cache_miss` half-way through the build: nothing ran, nothing cached
+        ({ st with children := buildClash s maps st.children }, .labelClash)
+      else
       if s.startAbort && strandedCollector s maps then
         -- the stranded collector's `ReadinessError` aborts the run before the signal loop
         ({ children := build s maps st.children, outs := ndOuts s,
@@ -441,10 +497,18 @@ def refOuts (s : Spec κ ν) (cur : Cur κ ν) : Outs κ ν :=
 
 /-- a loop layout the property talks about: every looped label is a body input, no label is
 looped twice, something is looped -/
-structure Valid (s : Spec κ ν) : Prop where
+structure Layout (s : Spec κ ν) : Prop where
   nodup : (s.iterOn ++ s.zipOn).Nodup
   sub : ∀ k ∈ s.iterOn ++ s.zipOn, k ∈ s.bodyInputs
   nonempty : s.iterOn ++ s.zipOn ≠ []
+
+/-- the column renaming really is a renaming: the column names of the table (looped inputs and
+mapped outputs) are pairwise distinct -/
+def ColsDistinct (s : Spec κ ν) : Prop := (columns s).Nodup
+
+/-- layout + distinct column names -/
+structure Valid (s : Spec κ ν) : Prop extends Layout s where
+  cols : ColsDistinct s
 
 /-- input values the property talks about: every input holds data, every looped input holds a
 non-empty list (the guard: the code refuses empty ones) -/
